@@ -39,7 +39,7 @@ ASSUMPTIONS = [
     'is exempt from the one-outcome vacuity guard',
 ]
 BOUNDS = {
-    'quick': 'every port width 1..3 (shift/rotate amount wires 1..3 bits: amounts 0..7); constant shifts n in '
+    'quick': 'plus boundary-value (corner) alphabets at port widths 8, 32, 33, 64 for every block; ' + 'every port width 1..3 (shift/rotate amount wires 1..3 bits: amounts 0..7); constant shifts n in '
              '0..max(aw,rw)+1, constant rotates n in 0..aw; CountLeadingZeros a 1..9 bits x r 1..5 bits; BinaryToBCD '
              'a 1..8 bits x r in {3,4,6,8,12}',
     'thorough': 'binary blocks every port width 1..6 (amount wires up to 6 bits: amounts 0..63), unary blocks and '
@@ -100,6 +100,27 @@ def shards(tier):
     for blk in CONST:
         for aw in range(1, Wu + 1):
             out.append({'block': blk, 'aw': aw, 'rws': list(range(1, Wu + 1))})
+    # wide configurations (sizes that invite special-casing): boundary-value alphabet on every wide port
+    import math
+    for W in ((7, 8, 9, 15, 16, 17, 31, 32, 33, 63, 64, 65) if T else (8, 32, 33, 64)):
+        sh = int(math.ceil(math.log2(W))) + 1
+        for blk, opts in BINARY.items():
+            for o in opts:
+                bw = sh if blk in ('ShiftLeft', 'ShiftRight', 'RotateLeft', 'RotateRight') else W
+                for rw in (W, W + 1) + ((2 * W,) if blk in ('Mul', 'SignedMul') else ()):
+                    d = {'block': blk}
+                    d.update(o)
+                    d.update({'aw': W, 'rw': rw, 'bws': [bw], 'corner': 1})
+                    out.append(d)
+        for blk, opts in UNARY.items():
+            for o in opts:
+                d = {'block': blk}
+                d.update(o)
+                d.update({'aw': W, 'rws': [1, W - 1, W, W + 1, 2 * W], 'corner': 1})
+                out.append(d)
+        for blk in CONST:
+            out.append({'block': blk, 'aw': W, 'rws': [W, W + 1], 'corner': 1})
+        out.append({'block': 'CountLeadingZeros', 'aw': W, 'rws': [sh], 'corner': 1})
     for aw in range(1, (12 if T else 9) + 1):
         out.append({'block': 'CountLeadingZeros', 'aw': aw, 'rws': [1, 2, 3, 4, 5]})
     for aw in range(1, (11 if T else 8) + 1):
@@ -298,7 +319,8 @@ def _probe_raise(c):
 def run_config(c):
     if c['block'] in ROT_CONST and c['n'] > c['aw']:
         # rotation amount above the data width: outside the statement for every input
-        return {'configs': 1, 'evaluations': 0, 'distinct_nontrivial': 0, 'skipped_precondition': 1 << c['aw'],
+        return {'configs': 1, 'evaluations': 0, 'distinct_nontrivial': 0,
+                'skipped_precondition': len(comb.corner_values(c['aw'])) if c.get('corner') and c['aw'] > 6 else 1 << c['aw'],
                 'distinct_outcomes': 0, 'vacuous_ok': True, 'violations': [], 'samples': []}
     expected = set()
 
@@ -309,7 +331,7 @@ def run_config(c):
         return e
 
     try:
-        res = comb.run_comb(c, build, ref_rec, 'C07')
+        res = comb.run_comb(c, build, ref_rec, 'C07', alphabets='corner' if c.get('corner') else None)
     except Exception as e0:
         py4hw.Wire.prepared = []
         pr = _probe_raise(c)
